@@ -149,6 +149,9 @@ def gen_case(rng, pid, tier):
     limits = {(p, k): (rng.choice([{'server': 1}, {'rack': 1}, {'server': 2}, {'cell': 2}]) if rng.random() < 0.4 else None)
               for p in (1, 2) for k in (0, 1)}
 
+    # one app of the case may declare NO affinity in its manifests: its instances share the unnamed affinity
+    noaff_group = rng.choice(sorted(limits)) if rng.random() < 0.2 else None
+
     def newapp():
         napps[0] += 1
         p, k = rng.randint(1, 2), rng.randint(0, 1)
@@ -157,6 +160,8 @@ def gen_case(rng, pid, tier):
         lim = limits[(p, k)]
         if lim:
             man['affinity_limits'] = lim
+        if (p, k) == noaff_group:
+            man['noaff'] = True
         if rng.random() < 0.35:
             man['identity_group'] = 'g1'
         lease = rng.choice(LEASES)
@@ -1692,6 +1697,15 @@ class _SchedView(object):
             return own, off
         self.trait_names = trait_names
 
+        def affinity_of(app_):
+            """The affinity the stored manifest declares (instances without one share the unnamed affinity)."""
+            man = store.nodes.get('/scheduled/' + app_.name)
+            try:
+                return (json.loads(man.data.decode()) if man is not None and man.data else {}).get('affinity')
+            except ValueError:
+                return app_.affinity.name
+        self.affinity_of = affinity_of
+
         def group_count(gname):
             """The group's count according to the stored /identity-groups record (a deleted group counts 0)."""
             rec_ = store.nodes.get('/identity-groups/' + gname)
@@ -1916,7 +1930,8 @@ def _apply(case, pid, run, w, op):
                 name = aname(sub[2], sub[3], sub[1])
                 w.apps_n[sub[1]] = name
                 man = dict(sub[4])
-                man.setdefault('affinity', name.split('#')[0])
+                if not man.pop('noaff', False):
+                    man.setdefault('affinity', name.split('#')[0])
                 w.zput('/scheduled/' + name, man)
                 _env(w, 'zsched %d 1' % aid_of(name))
         _restart(w, pid, 'restart-after-offline-events')
@@ -1929,7 +1944,8 @@ def _apply(case, pid, run, w, op):
             return
         w.apps_n[n] = name
         man = dict(man)
-        man.setdefault('affinity', name.split('#')[0])
+        if not man.pop('noaff', False):
+            man.setdefault('affinity', name.split('#')[0])
         w.now += 1                      # distinct creation order
         run.op('tick %d' % w.now, None)
         w.zput('/scheduled/' + name, man)
